@@ -9,6 +9,19 @@ NOTE = ("Trusted: Lean 4.33 kernel (axioms propext, Classical.choice, Quot.sound
         "differential correspondence streams named here (agreement on generated inputs, not a proof of the tie). ")
 
 CLAIMS = {
+ 'C05': dict(
+   text="Lean theorems: degree_vs_syllable, by induction over the progression with the converter's carried scale: for EVERY abstract progression (roots on "
+        "degrees 1..7 with flat/natural/sharp, any symbol, optional bass as an interval above the root, rests, any durations, any metadata with key changes at "
+        "arbitrary positions) and every start key, whenever it can be spelled with note names (spell_fails_only_on_double_accidentals), `text conv syllable` of "
+        "the spelling = `text conv degree` of the degree spelling (instances and failures alike); core: from any of the 21 written reference notes the written "
+        "note an interval above it converts back to that interval (decide over 21 x 21 x 2); key_change_applies_from_carrier; chord_transposes / "
+        "piece_transposes (for any tick function, any dictionary: the timeline in key k2 is the timeline in k1 with every note key shifted by the tonic "
+        "distance, nothing else changed; byte arithmetic = plain addition in range). Tie + real-vs-real oracle: 500 (8,000) random progressions rendered as "
+        "degree text and as note names in random keys with key changes through `crd text conv degree` / `syllable --key K` (outputs compared byte for byte), "
+        "and the converted document through `crd write event --key K1` / `--key K2` (note-ons compared up to the shift).",
+   note="Transposition is stated for instance lists without their own key changes (a later `key` overrides --key by design). Compound degrees (9, 11, 13) have no "
+        "note-name spelling that converts back to them (note names always give 1..7) and are outside the first clause.",
+   technique="Lean 4 proof: induction over progressions with carried state + kernel decide on the finite note/interval product + modular arithmetic; real-vs-real differential", ref="6 (C05)"),
  'C10': dict(
    text="Lean theorems for ALL values: degree_survives (every valid interval < 2^64 prints and reads back), key_survives (42 spellings), fraction_survives (all "
         "n/d, bare n when d = 1, validators), dynamic_survives, bpm_survives, text_survives, instance_survives (decodeInstance (encodeInstance i) = ok i for every "
